@@ -62,7 +62,7 @@ def run(ctx):
         if r.kind != "return" or r.term == t:
             continue
         rt = r.term
-        ok = rt[0] == "slice" and rt[1][0] == "call" and rt[1][1] == "urllib.parse.urlunsplit" and rt[1][2] and rt[1][2][0] == t and rt[2] == ("const", 2)
+        ok = U.is_string_form(rt, t)
         ctx.ob("R1", "fingerprint_url/string-form", ok, "fingerprint_url's string form is not urlunsplit(tuple)[2:]: %s" % P.show(rt, maxdepth=3), mod.site(r.node))
 
     ctx.rule("R2", "language query items: LANG_QUERY_KEYS includes gl and hl; lang_query_item_filter rejects exactly those keys and is the query_item_filter handed to normalize_url; should_strip_query_item consults the custom filter whatever the per-domain filter says and hands it the lower-cased key (finite-domain interpretation)")
